@@ -297,11 +297,11 @@ pub mod ops {
         )
     }
 
+    // every element is followed by ';' (so that [""] and [] are distinguishable)
     fn split_hex_list(s: &str) -> Vec<String> {
-        if s.is_empty() {
-            return Vec::new();
-        }
-        s.split(';').map(hex_str).collect()
+        let mut parts: Vec<&str> = s.split(';').collect();
+        parts.pop();
+        parts.into_iter().map(hex_str).collect()
     }
 
     fn parse_style(s: &str, tc: &str) -> Style {
